@@ -769,10 +769,10 @@ func newMapDecoder(decoder *encoding.DecodeAssembler[Value, any]) encoding.Decod
 					} else {
 						dec = encoding.DecodeFunc(func(source Map, target unsafe.Pointer) error {
 							value := source.Get(alias)
+							source.Delete(alias)
 							if value == nil {
 								return nil
 							}
-							source.Delete(alias)
 							return child.Decode(value, unsafe.Pointer(uintptr(target)+offset))
 						})
 					}
